@@ -49,8 +49,8 @@ type Net struct {
 	Handler func(*NetRequest) *NetReply
 	// OnDeliver runs (on the root, at quiescence) at the instant a reply is handed to the caller.
 	OnDeliver func(*NetRequest, *NetReply)
-	seq     map[string]int
-	total   int
+	seq       map[string]int
+	total     int
 }
 
 func NewNet(w *World, h func(*NetRequest) *NetReply) *Net {
